@@ -77,6 +77,12 @@ CHECKS.update({
          'All block histories up to depth 4 (thorough 5) of child begins, success/failure/rollback receipts (duplicates, before begin, several per block) and empty blocks for three groups (2 children on 2 destination chains; first child refused by a blacklisting destination; 3 children with an unregistered destination), timeout 0 and 2: global SUCCESS only with all children succeeded; after a child failure or group timeout every status stays in the failure/rollback family; in the failing block the source chain is told about every begun child and each destination chain about its already-succeeded child.',
          'a failure receipt for a child that already reported success is treated as implementation-defined (model follows the implementation, then holds it to the invariants)', '5 C05'),
 })
+CHECKS.update({
+ 'C15': ('govmc', 'model_checking',
+         'explicit-state BFS over proposal / vote / withdrawal / electorate-change histories on the real executor against an independent tally model',
+         'All histories up to depth 5 (thorough 6) of open, vote (approve / reject / garbage) by the super admin, the next normal admin (normal admins are symmetric), the same admin again, an outsider, a frozen admin, withdraw by proposer / other, and an approved freeze of an admin before or while a proposal is open, for admin sets {1 super+3, 1 super+2, 2 super+2} x strategies {a>0.5t, a>=t, a>=2, a>=1, a>0.5t&&r<2} x proposal kinds {node registration, admin registration (special), appchain freeze (special)}; after each step receipt verdict, status, tallies/ballots and the governed object are compared with the model (govaluate on a, r, t, available electors).',
+         'one explored proposal at a time per history (plus the freeze proposal); priority locking between proposals on one object is exercised in C16', '5 C15'),
+})
 REASON_WIP = 'check not built yet (work in progress; see DESIGN.md section 10)'
 def main():
     checks = []
@@ -111,6 +117,7 @@ def main():
             {'name': 'crashmc', 'path': 'harness/checks/c11.go', 'serves_properties': ['C11'], 'kind_free_text': 'crash-state enumeration from recorded writes'},
             {'name': 'poolmc', 'path': 'harness/checks/pool.go', 'serves_properties': ['C18', 'C19'], 'kind_free_text': 'explicit-state BFS over the real mempool'},
             {'name': 'probemc', 'path': 'harness/checks/probe.go', 'serves_properties': ['C03', 'C07', 'C08', 'C17'], 'kind_free_text': 'exhaustive probe product with differential oracle, sharded over worker subprocesses'},
+            {'name': 'govmc', 'path': 'harness/checks/c15.go', 'serves_properties': ['C15'], 'kind_free_text': 'explicit-state BFS over governance histories'},
             {'name': 'enum', 'path': 'harness/checks/c10.go', 'serves_properties': ['C10'], 'kind_free_text': 'bounded-exhaustive enumeration'},
         ],
         'checks': checks,
